@@ -136,13 +136,14 @@ class DWTInverse(nn.Module):
         for h in yh[::-1]:
             if h is None:
                 h = torch.zeros(ll.shape[0], ll.shape[1], 3, ll.shape[-2],
-                                ll.shape[-1], device=ll.device)
+                                ll.shape[-1], device=ll.device,
+                                dtype=ll.dtype)
 
             # 'Unpad' added dimensions
             if ll.shape[-2] > h.shape[-2]:
-                ll = ll[...,:-1,:]
+                ll = ll[...,:h.shape[-2],:]
             if ll.shape[-1] > h.shape[-1]:
-                ll = ll[...,:-1]
+                ll = ll[...,:h.shape[-1]]
             ll = lowlevel.SFB2D.apply(
                 ll, h, self.g0_col, self.g1_col, self.g0_row, self.g1_row, mode)
         return ll
